@@ -64,5 +64,14 @@ PROPS["C17"] = {
     "explanation": "adapter algebra proved for every payload; monitor compares arguments; enumeration of styles x payload kinds",
     "assumptions": ["payload identity is pointer identity for tokens; other payload kinds are compared by kind"],
 }
+for _p in ("C06", "C07", "C08", "C09", "C11"):
+    PROPS[_p] = {
+        "parts": [dict(ENGINE, timeout=600)],
+        "level_text": "placeholder",
+        "level_note": _T,
+        "explanation": "",
+        "assumptions": [],
+        "coqchk": True,
+    }
 
 NOT_APPLICABLE = {}
